@@ -18,6 +18,8 @@ pub trait OrdColl: Sized {
     const KIND: &'static str;
     const HAS_SNAP: bool;
     const IS_SET: bool;
+    /// values are bare keys (SetTree<i32, i32> with the library's own KeyValue impl): payload == key
+    const PLAIN: bool = false;
     fn name() -> String;
     fn make(cap: usize) -> Self;
     fn is_empty(&self) -> bool;
@@ -262,6 +264,73 @@ impl<P: Payload> OrdColl for SetTree<OKey, PV<P>> {
     fn canon(&self) -> String {
         let s = self.verif_snapshot();
         let nodes: Vec<CNode> = s.nodes.iter().map(|n| CNode { l: n.left, r: n.right, red: n.red, k: n.value.key.0, v: n.value.payload.to_i() }).collect();
+        canon_of(&nodes, s.root, s.unused.len())
+    }
+}
+
+// ---- SetTree over plain integers (the library's own `impl KeyValue<i32> for i32`) -------------
+impl OrdColl for SetTree<i32, i32> {
+    const KIND: &'static str = "SetTree";
+    const HAS_SNAP: bool = true;
+    const IS_SET: bool = true;
+    const PLAIN: bool = true;
+    fn name() -> String {
+        "SetTree<i32,i32>".to_string()
+    }
+    fn make(cap: usize) -> Self {
+        SetTree::new(cap)
+    }
+    fn is_empty(&self) -> bool {
+        SetCollection::is_empty(self)
+    }
+    fn insert(&mut self, k: i32, _v: i32) {
+        SetCollection::insert(self, k)
+    }
+    fn delete(&mut self, k: i32) {
+        SetCollection::delete(self, &k)
+    }
+    fn delete_by_index(&mut self, h: u32) {
+        SetCollection::delete_by_index(self, h)
+    }
+    fn get(&self, k: i32) -> Option<(i32, i32)> {
+        SetCollection::get_value(self, &k).map(|v| (*v, *v))
+    }
+    fn read(&self, h: u32) -> (i32, i32) {
+        let v = *SetCollection::value_by_index(self, h);
+        (v, v)
+    }
+    fn write(&mut self, _h: u32, _v: i32) {}
+    fn fil(&self, k: i32) -> u32 {
+        SetCollection::first_index_less(self, &k)
+    }
+    fn fil_by(&self, th: i32) -> u32 {
+        SetCollection::first_index_less_by(self, |key: &i32| (2 * *key).cmp(&th))
+    }
+    fn after(&self, h: u32) -> u32 {
+        SetCollection::index_after(self, h)
+    }
+    fn before(&self, h: u32) -> u32 {
+        SetCollection::index_before(self, h)
+    }
+    fn clear(&mut self) {
+        SetCollection::clear(self)
+    }
+    fn snap_json(&self) -> String {
+        let s = self.verif_snapshot();
+        let mut o = String::with_capacity(64 + 40 * s.nodes.len());
+        snap_head(&mut o, s.root);
+        for (i, n) in s.nodes.iter().enumerate() {
+            if i > 0 {
+                o.push(',');
+            }
+            let _ = write!(o, "[{},{},{},{},{},{},0]", r32(n.parent), r32(n.left), r32(n.right), n.red as u8, n.value, n.value);
+        }
+        snap_tail(&mut o, &s.unused, s.unused_capacity);
+        o
+    }
+    fn canon(&self) -> String {
+        let s = self.verif_snapshot();
+        let nodes: Vec<CNode> = s.nodes.iter().map(|n| CNode { l: n.left, r: n.right, red: n.red, k: n.value, v: n.value }).collect();
         canon_of(&nodes, s.root, s.unused.len())
     }
 }
@@ -523,7 +592,7 @@ impl<'a, C: OrdColl> OrdSession<'a, C> {
             for op in path {
                 match op {
                     POp::Ins { k, v } => {
-                        c.insert(*k, *v);
+                        c.insert(*k, if C::PLAIN { *k } else { *v });
                         mine.insert(*k);
                     }
                     POp::Del { k } => {
@@ -612,6 +681,18 @@ impl<'a, C: OrdColl> OrdSession<'a, C> {
     }
 
     pub fn apply(&mut self, op: &OOp, arm: u64) -> Applied {
+        // bare-integer sets: the value is the key; there is no payload to write
+        let adapted;
+        let op = if C::PLAIN {
+            adapted = match op {
+                OOp::Ins { k, .. } => OOp::Ins { k: *k, v: *k },
+                OOp::Write { h, .. } => OOp::Read { h: *h },
+                o => o.clone(),
+            };
+            &adapted
+        } else {
+            op
+        };
         self.opcount += 1;
         let desc = op.desc();
         if self.snap_every <= 1 {
